@@ -6,7 +6,7 @@
 //! denotes). `Raw*` modes drive `csi::io::Query` / `csi::async::io::Query` directly on a FRESH BGZF reader with the chunk
 //! lists of the index (bytes + position, no record parsing).
 
-use std::io::{self, BufRead, Cursor, Read};
+use std::io::{self, BufRead, Cursor};
 
 use corpus::{Kind, Side, render};
 use futures::TryStreamExt;
@@ -19,7 +19,7 @@ use noodles_csi::{self as csi, BinningIndex, binning_index::index::reference_seq
 use noodles_sam as sam;
 use noodles_tabix as tabix;
 use noodles_vcf as vcf;
-use tokio::io::{AsyncBufReadExt, AsyncReadExt};
+use tokio::io::AsyncBufReadExt;
 use vcore::{Rng, aadv::PollRead, rng::fnv1a};
 
 use crate::rd::{bgzf_reader, repository};
@@ -748,17 +748,26 @@ pub fn run_sync(mode: Mode, data: &[u8], index_bytes: &[u8], side: &Side, querie
                     continue;
                 };
                 let mut bytes = Vec::new();
-                let res = {
+                // The same consumer discipline on both sides: fill_buf + consume of the whole window (how far a Query runs
+                // past its last chunk end depends on where the consumer's reads end: it checks the position at every fill).
+                // Partially consumed: `take` windows, at most 100 bytes of each.
+                let res = (|| -> io::Result<()> {
                     let mut query = csi::io::Query::new(&mut r, chunks);
-                    match q.take() {
-                        // partially consumed: 100 bytes per "record"
-                        Some(k) => {
-                            let mut buf = vec![0u8; 100 * k];
-                            query.read(&mut buf).map(|n| bytes.extend_from_slice(&buf[..n]))
+                    let mut windows = 0usize;
+                    loop {
+                        if q.take() == Some(windows) {
+                            return Ok(());
                         }
-                        None => query.read_to_end(&mut bytes).map(|_| ()),
+                        let w = query.fill_buf()?;
+                        if w.is_empty() {
+                            return Ok(());
+                        }
+                        let n = if q.take().is_some() { w.len().min(100) } else { w.len() };
+                        bytes.extend_from_slice(&w[..n]);
+                        query.consume(n);
+                        windows += 1;
                     }
-                };
+                })();
                 match res {
                     Ok(()) => {
                         t.out.push(format!("D:{:016x}:{}", fnv1a(&bytes), bytes.len()));
@@ -905,14 +914,24 @@ pub async fn run_async(mode: Mode, src: PollRead, data: Vec<u8>, index_bytes: Ve
                     continue;
                 };
                 let mut bytes = Vec::new();
-                let res = {
+                let res: io::Result<()> = {
                     let mut query = csi::r#async::io::Query::new(&mut r, chunks);
-                    match q.take() {
-                        Some(k) => {
-                            let mut buf = vec![0u8; 100 * k];
-                            query.read(&mut buf).await.map(|n| bytes.extend_from_slice(&buf[..n]))
+                    let mut windows = 0usize;
+                    loop {
+                        if q.take() == Some(windows) {
+                            break Ok(());
                         }
-                        None => query.read_to_end(&mut bytes).await.map(|_| ()),
+                        let w = match query.fill_buf().await {
+                            Ok(w) => w,
+                            Err(e) => break Err(e),
+                        };
+                        if w.is_empty() {
+                            break Ok(());
+                        }
+                        let n = if q.take().is_some() { w.len().min(100) } else { w.len() };
+                        bytes.extend_from_slice(&w[..n]);
+                        query.consume(n);
+                        windows += 1;
                     }
                 };
                 match res {
